@@ -1669,6 +1669,30 @@ func (c09) Run(plan interface{}, schedSeed uint64, replay []simrt.Choice, lenien
 		v.Probe("concurrent-logins")
 		judge(obs.twin, p.TwinPassword, p.TwinRemotePw, twinUser(p.User))
 	}
+	if obs.twin != nil && v.Class == "" && p.Encrypted {
+		// nothing of the other login's secrets on this login's connection or in its error text (the twin's secrets
+		// are independent markers that no configured field of the main login contains)
+		var mainBytes []byte
+		for _, m := range obs.sent {
+			mainBytes = append(mainBytes, m.Body...)
+		}
+		errText := ""
+		if obs.loginErr != nil {
+			errText = obs.loginErr.Error()
+		}
+		for _, hx := range append([]string{p.TwinPassword}, p.TwinRemotePw...) {
+			sec := unhex(hx)
+			if len(sec) < 8 {
+				continue
+			}
+			if bytes.Contains(mainBytes, sec) {
+				v.Violate("clear-password", "a secret of a concurrent login appears on another connection", "edit [%s]: a secret of the second login (%d bytes) appears in clear in the bytes the first login wrote", p.Edit, len(sec))
+			}
+			if strings.Contains(errText, string(sec)) {
+				v.Violate("password-in-error", "a secret of a concurrent login appears in another login's error", "edit [%s]: the first login's error text contains a secret of the second login", p.Edit)
+			}
+		}
+	}
 	pw := unhex(p.Password)
 	v.Probe("class:" + p.Class)
 	v.Sample = map[string]interface{}{"edit": p.Edit, "key_bits": p.KeyBits, "nonce": p.NonceLen, "password_len": len(pw), "remote": p.Remote, "messages_sent": len(obs.sent)}
